@@ -11,6 +11,7 @@ R20.4 the iteration order of hash containers whose keys contain StorageT values 
       per width) reaches no ordered result: otherwise numbering / table contents differ between widths that accept the grammar
 """
 from mirlib import *
+import re
 
 META = {
     'level': 'other',
@@ -656,8 +657,42 @@ def r206(facts, res):
     res.floor(R, 'products examined', n, 4)
 
 
+def r207(facts, res):
+    """A COUNT (tokens_len, rules_len, prods_len, .. - the number of things, which may be exactly the largest value of the storage
+    type) is not added to in the storage type: `len + 1` wraps (or panics on overflow) for a grammar the width accepts.  Sums over
+    counts are formed after widening to usize.  (An index plus one stays within the count and is not concerned.)"""
+    R = 'R20.7'
+    n = 0
+    bad = []
+    LEN = re.compile(r'(^|_)len$')
+    for b in facts.lib_bodies(CRATES):
+        if b.from_expansion:
+            continue
+        for bb, t in b.calls():
+            c = callee_of(t)
+            if c is None or c['name'] not in ('add', 'add_assign', 'checked_add', 'wrapping_add', 'saturating_add'):
+                continue
+            st = (c.get('self_ty') or (c.get('args') or [''])[0]).strip()
+            if not (st == 'StorageT' or st.endswith('::StorageT')):
+                continue
+            n += 1
+            for a in t['args']:
+                r, _p, via = b.op_root(a, through=Body.THROUGH + ('as_storaget', 'into', 'from', 'as_'), stop_named=False)
+                for d in b.defs().get(r, []) if r is not None else []:
+                    if d[1] == 'call' and LEN.search(cname(d[2]) or '') and (cpath(d[2]) or '').startswith(('cfgrammar::', 'lrtable::')):
+                        bad.append((b, bb, cname(d[2])))
+    if bad:
+        for b, bb, what in bad[:3]:
+            res.bad(R, 'count-plus-in-storaget:%s' % strip_generics(b.path), loc_of(b, bb), 'the count `%s()` is added to in the storage type: a grammar with exactly max_value() of them is accepted by the '
+                    'guards, and the sum overflows - widen to usize first' % what, {'function': b.path})
+    else:
+        res.ok(R, 'no-count-plus-in-storaget', '', 'none of the %d additions performed in the storage type has a count (`*_len()`) as an operand' % n)
+    res.floor(R, 'additions in the storage type', n, 1)
+
+
 def run(facts, res):
     r206(facts, res)
+    r207(facts, res)
     r205(facts, res)
     r204(facts, res)
     r201(facts, res)
